@@ -614,7 +614,7 @@ Loop:
 		case 'O', 'o':
 			m0 |= ModeOwner
 		case 'N', 'n':
-			if m0 != ModeUnset {
+			if m0 != ModeUnset || i+1 < len(b) {
 				return ModeUnset, errors.New("AccessMode: access N cannot be combined with any other")
 			}
 			m0 = ModeNone // N means explicitly no access, all bits cleared
